@@ -752,4 +752,61 @@ example :
   · simp [Rc.activatable]; decide
   · simp [Rc.activatable]; decide
 
+/-! ## Which class a confirmed revocation finishes (sixth session, seed C04-r6)
+
+The parent's confirmation of the revocation of a class's old key ends the old-key phase of THAT class: the manager issues
+`KeyRollFinish` under the CA's own name of the class.  Issued under another name (the name the PARENT uses for the class, which
+differs as soon as the CA has a second parent) it either finishes a class on the confirmation of another parent, or is
+refused – and the class it was meant for stays in its old-key phase.  The dynamic side is the oracle `RollCompletes`
+(`syskeys C04`, corpus `system/c04-roll-two-krill-parents`). -/
+
+/-- `keyroll_finish_iff` – a `KeyRollFinish` for class `r` succeeds exactly when class `r` exists and is in its old-key phase,
+and then emits the one event `KeyRollFinished` FOR CLASS `r`. -/
+theorem keyroll_finish_iff (s : Ca) (r : Rcn) :
+    (∀ evs, s.process (.keyrollFinish r) = .ok evs → evs = [.key r .finished]) ∧
+    ((∃ evs, s.process (.keyrollFinish r) = .ok evs) ↔
+      ∃ rc, get s.classes r = some rc ∧ rc.keys.variant = .rollOld) := by
+  constructor
+  · intro evs h
+    simp only [Ca.process] at h
+    cases hg : get s.classes r with
+    | none => simp [hg] at h
+    | some rc =>
+      simp only [hg] at h
+      cases hk : rc.keys.keyrollFinish with
+      | error e => simp [hk] at h
+      | ok e =>
+        simp only [hk, Except.ok.injEq] at h
+        cases hks : rc.keys <;> simp [KeyState.keyrollFinish, hks] at hk
+        subst hk; exact h.symm
+  · constructor
+    · rintro ⟨evs, h⟩
+      simp only [Ca.process] at h
+      cases hg : get s.classes r with
+      | none => simp [hg] at h
+      | some rc =>
+        refine ⟨rc, rfl, ?_⟩
+        simp only [hg] at h
+        cases hks : rc.keys <;> simp [KeyState.keyrollFinish, hks, KeyState.variant] at h ⊢
+    · rintro ⟨rc, hg, hv⟩
+      simp only [Ca.process, hg]
+      cases hks : rc.keys <;> simp [KeyState.variant, hks] at hv
+      exact ⟨[.key r .finished], by simp [KeyState.keyrollFinish]⟩
+
+/-- `finish_touches_named_class_only` – applying `KeyRollFinished` for class `r'` leaves every other class as it was: a
+confirmation booked under the wrong name cannot end the old-key phase of the class it was given for. -/
+theorem finish_touches_named_class_only (s s' : Ca) (r r' : Rcn) (hne : r' ≠ r)
+    (h : s.apply (.key r' .finished) = some s') : get s'.classes r = get s.classes r := by
+  simp only [Ca.apply, Ca.withClass] at h
+  cases hg : get s.classes r' with
+  | none => simp [hg] at h
+  | some rc =>
+    simp only [hg] at h
+    cases hk : (rc.keys.apply .finished).map fun ks => { rc with keys := ks } with
+    | none => simp [hk] at h
+    | some rc' =>
+      simp only [hk, Option.some.injEq] at h
+      subst h
+      exact get_set_ne s.classes rc' hne
+
 end KM.Props.C04
